@@ -967,8 +967,10 @@ def run(ctx):
         for _ in range(n_logmal):
             specs.append(gen_log_malformed(rng))
         if getattr(ctx, 'replay', None):
-            rp = json.load(open(ctx.replay))
-            specs = [rp['case']['spec']] if 'spec' in rp.get('case', {}) else specs
+            rpath = ctx.replay if os.path.isabs(ctx.replay) else os.path.join(vlib.ROOT, ctx.replay)
+            rp = json.load(open(rpath))
+            if isinstance(rp.get('case'), dict) and 'spec' in rp['case']:
+                specs = [rp['case']['spec']]     # re-execute exactly that case on the current tree
         for spec in specs:
             runners[spec['kind']](ctx, pym, sc, spec, checks, labels, jobs)
         leftovers = sc.dir
